@@ -7,6 +7,8 @@
 //! Exit codes: 0 property held on everything explored, 1 violation, 2 harness error.
 
 mod c10;
+mod c11;
+mod c14;
 mod cell;
 mod gen;
 mod gen_stl;
@@ -20,6 +22,8 @@ use serde_json::Value;
 fn replay_dispatch(check: &str, v: &Value) -> Vec<(String, String)> {
     match check {
         "C10" => c10::replay_all(&v["case"]),
+        "C11" => c11::replay_all(&v["case"]),
+        "C14" => c14::replay_all(&v["case"]),
         _ => vec![("harness:unknown-check".into(), check.to_string())],
     }
 }
@@ -60,6 +64,8 @@ fn main() {
             }
         }
         Some("C10") => c10::run(args.get(1).map(|s| s.as_str()).unwrap_or("quick"), seed),
+        Some("C11") => c11::run(args.get(1).map(|s| s.as_str()).unwrap_or("quick"), seed),
+        Some("C14") => c14::run(args.get(1).map(|s| s.as_str()).unwrap_or("quick"), seed),
         _ => {
             eprintln!("usage: opwsim <C10..C19> <quick|thorough> | replay <file> | selftest");
             2
